@@ -89,6 +89,12 @@ func allScenarios() []*scenario {
 			Why: "compaction of a bottom range that cancels out entirely (no output table) while tables above it stay listed ‖ reader/adder"},
 		{Name: "S6r", Init: "two", Procs: []procSpec{PNoAuto(add("a"), rng(1, 2)), Reader(st("read"), st("reload"), st("read"))}, Preempt: -1,
 			Why: "an explicit reload racing with add + partial compaction: a reload that reports success must settle on a version at least as new as the one current when it started"},
+		{Name: "S12-b3", Init: "two", Procs: []procSpec{PNoAuto(add("a")), PNoAuto(add("b")), PNoAuto(compactAll()), Reader(st("read"), add("r1"))}, Preempt: 3,
+			Why: "as S12 with at most 3 preemptions (thorough tier)"},
+		{Name: "S20", Init: "one", Procs: []procSpec{P(add("a")), P(add("b")), P(add("c")), PNoAuto(compactAll(), add("d"))}, Preempt: 2,
+			Why: "three auto-compacting Adds ‖ {CompactAll; Add}: four processes, at most 2 preemptions"},
+		{Name: "S21", Init: "four", Procs: []procSpec{PNoAuto(rng(0, 1)), PNoAuto(rng(2, 3)), PNoAuto(rng(1, 2)), P(add("a"))}, Preempt: 2,
+			Why: "three range compactions (two disjoint, one overlapping both) ‖ auto-compacting Add: four processes, at most 2 preemptions"},
 		{Name: "S16", Init: "three", Procs: []procSpec{PNoAuto(rng(1, 2)), PNoAuto(add("a"))}, Preempt: -1,
 			Why: "partial-range compaction over a tombstone ‖ Add"},
 	}
@@ -107,11 +113,11 @@ func allScenarios() []*scenario {
 }
 
 var quickSets = map[string][]string{
-	"C04": {"S1-empty", "S1-one", "S2", "S5", "S8", "S14", "S9", "S1-one@s256", "S10", "S18-reject", "S19-span", "S3", "S12", "S16", "S2@s256"},
-	"C05": {"S1-one", "S2", "S3", "S4", "S4b", "S16c", "S18-reject", "S19-span", "S6p", "S6q-b2", "S7-close-partial", "F1-fault-compact-add", "F2-fault-add-add", "S5", "S7-close", "S7-clean", "S13", "S15-crash", "S16"},
-	"C08": {"S1-one", "S2", "S4b", "S5", "S5b", "S8", "S7-clean", "F1-fault-compact-add", "F2-fault-add-add", "F3-fault-range-range"},
+	"C04": {"S1-empty", "S1-one", "S2", "S5", "S8", "S14", "S9", "S1-one@s256", "S10", "S18-reject", "S19-span", "S3", "S12", "S16", "S2@s256", "S20", "S21"},
+	"C05": {"S1-one", "S2", "S3", "S4", "S4b", "S16c", "S20", "S21", "S18-reject", "S19-span", "S6p", "S6q-b2", "S7-close-partial", "F1-fault-compact-add", "F2-fault-add-add", "S5", "S7-close", "S7-clean", "S13", "S15-crash", "S16"},
+	"C08": {"S1-one", "S2", "S4b", "S5", "S5b", "S8", "S7-clean", "S20", "S21", "F1-fault-compact-add", "F2-fault-add-add", "F3-fault-range-range"},
 	"C10": {"S6", "S6p", "S6o", "S6q-b2", "S1-one", "S12", "S6-3", "S6p@s256", "S6r", "S16c"},
-	"C16": {"S1-empty", "S1-one", "S2", "S4", "S4b", "S16c", "S18-reject", "S7-close-partial", "F1-fault-compact-add", "F2-fault-add-add", "S5", "S7-close", "S7-clean", "S7-clean-compact", "S8", "S10", "S17-gc-empty"},
+	"C16": {"S1-empty", "S1-one", "S2", "S4", "S4b", "S16c", "S20", "S21", "S18-reject", "S7-close-partial", "F1-fault-compact-add", "F2-fault-add-add", "S5", "S7-close", "S7-clean", "S7-clean-compact", "S8", "S10", "S17-gc-empty"},
 }
 
 func catalogue(prop, tier string) []*scenario {
